@@ -39,6 +39,8 @@ def run(ctx):
     if fm is not None:
         offset_rule(ctx, fm)
         stats_rule(ctx, fm)
+        rule_taken_reaches(ctx, "C05.T", fm, "vectorise_mmap",
+                           lambda n: n.get("k") == "mcall" and cname(n) == "ktio::mmap::MMWriter::write_at", "row write")
     if fb is not None:
         rule_ordered_collects(ctx, "C05.P", fb, 1)
         rule_sink_sequential(ctx, "C05.W", fb, "oligo::vectorise_batch")
@@ -189,6 +191,8 @@ def offset_rule(ctx, fm, R="C05.O"):
 
 
 def stats_rule(ctx, fm):
+    from .c14 import stats_every_record
+    stats_every_record(ctx, "C05.Q")
     stats = fm.calls_to("ktio::seq::Sequences::seq_stats")
     news = fm.calls_to("ktio::seq::Sequences::new")
     ok = len(stats) == 1 and len(news) == 1 and \
